@@ -15,6 +15,11 @@ def flattenable(cfg):
     meaningful: the parent has no window either, handlers take no time, nothing never ends)"""
     jobs = cfg["jobs"]
     out = []
+    # with a window anywhere in the tree the order in which queued jobs get a slot follows the
+    # iteration order of sets, which the renumbering of the flattened tree changes: without
+    # windows that order only permutes events inside one instant
+    if any(j["sched"] and j["window"] for j in jobs):
+        return out
     for m, j in enumerate(jobs):
         if m == 0 or not j["sched"]:
             continue
@@ -52,6 +57,8 @@ def flatten(cfg, m):
     ks = [k for k in range(1, n) if jobs[k]["parent"] == m]
     c2 = copy.deepcopy(cfg)
     J = c2["jobs"]
+    for i, j in enumerate(J):
+        j.setdefault("uid", i)      # set iteration orders must not depend on the renumbering
     for k in ks:
         J[k]["parent"] = jobs[m]["parent"]
         if not [r for r in jobs[k]["reqs"]]:
@@ -94,7 +101,10 @@ def timeline(log):
     tl["first_cancel"] = float("inf")
     for e in log:
         k = e[0]
-        if k in ("chit", "cabort", "cend", "taskcancelled", "waitcancel") and now < tl["first_cancel"]:
+        if (k in ("chit", "cabort", "cend", "taskcancelled", "waitcancel")
+                or (k == "finish" and e[2] == "exc")
+                or (k == "end" and e[2] not in ("true",))) and now < tl["first_cancel"]:
+            # the first instant at which something aborts or fails (a raising job may be critical)
             tl["first_cancel"] = now
         if k in ("tick", "gracetick", "latetick"):
             now = e[1]
@@ -150,7 +160,7 @@ class C10(RProp):
     def generate(self, tier, rnd):
         n = 1000 if tier == "quick" else 20000
         out = []
-        flat_profile = dict(self.profile, timeout=0.05, root_timeout=0.05, window=0.1, forever=0.03, never=0.0,
+        flat_profile = dict(self.profile, timeout=0.05, root_timeout=0.05, window=0.0, forever=0.03, never=0.0,
                             sdur=0.05, nested=0.55, crit=0.6)
         for i in range(n):
             mj = rnd.choice([3, 5, 8, self.max_jobs, self.max_jobs])
